@@ -1,5 +1,6 @@
 import ArimModel.Weights
 import ArimProofs.Lemmas.Weights
+import ArimProofs.Lemmas.Pencil
 import Mathlib.Analysis.Complex.Trigonometric
 import Mathlib.Analysis.Real.Sqrt
 /-! # C06 — 2-D beamspread equals the geometric ray-tube divergence -/
@@ -211,5 +212,264 @@ example : gammas rT [1, 2] [0] = [1 / 2] := by
   norm_num
 
 end examples
+
+/-! ## the interface factor `γ` IS the jump of the virtual-source distance of a ray pencil
+
+2-D, interface = the line `y = 0`, abscissa `s` along it, point source `S = (a, h)`, `h > 0`.
+`th1 a h s = arctan ((s - a)/h)`, `rho1 a h s = √((s-a)² + h²)`, `th2 a h κ s = arcsin (κ sin (th1 a h s))`
+(`κ = vOut/vIn`), and `F a h κ s0 ρ2 s = (V0 - P(s)) ⬝ n(s)` with `V0 = P(s0) - ρ2 • d(s0)` are defined in
+`ArimProofs/Lemmas/Pencil.lean`; `F_def`/`Frefl_def` below display them in coordinates. -/
+section pencil
+open Arim.Pencil
+
+/-- the transmission `F` in coordinates: `V0 = P(s0) - ρ2 • d(s0)`, `P(s) = (s, 0)`,
+`d(s) = (sin th2 s, -cos th2 s)`, `n(s) = (cos th2 s, sin th2 s)`, `F(s) = (V0 - P(s)) ⬝ n(s)` -/
+theorem F_def (a h κ s0 ρ2 s : ℝ) :
+    F a h κ s0 ρ2 s =
+      let V0x := s0 - ρ2 * Real.sin (th2 a h κ s0)
+      let V0y := 0 - ρ2 * (-Real.cos (th2 a h κ s0))
+      (V0x - s) * Real.cos (th2 a h κ s) + (V0y - 0) * Real.sin (th2 a h κ s) := rfl
+
+/-- the reflection `F` in coordinates: `d(s) = (sin th2 s, +cos th2 s)`, `n(s) = (cos th2 s, -sin th2 s)` -/
+theorem Frefl_def (a h κ s0 ρ2 s : ℝ) :
+    Frefl a h κ s0 ρ2 s =
+      let V0x := s0 - ρ2 * Real.sin (th2 a h κ s0)
+      let V0y := 0 - ρ2 * Real.cos (th2 a h κ s0)
+      (V0x - s) * Real.cos (th2 a h κ s) + (V0y - 0) * (-Real.sin (th2 a h κ s)) := rfl
+
+/-- the candidate centre lies on the central ray, whatever `ρ2` -/
+theorem F_at_s0 (a h κ s0 ρ2 : ℝ) : F a h κ s0 ρ2 s0 = 0 := F_self a h κ s0 ρ2
+
+/-- Snell's law for the angles used here: `sin th2 = κ sin th1` -/
+theorem snell_holds (a h κ s : ℝ) (hk : |κ * Real.sin (th1 a h s)| < 1) :
+    Real.sin (th2 a h κ s) = κ * Real.sin (th1 a h s) := sin_th2 hk
+
+/-- **1. Incoming pencil**: `dth1/ds = cos th1 / rho1` — the rays through `P(s)` turn as those of a
+point source at distance `rho1` -/
+theorem incidence_deriv (a h s0 : ℝ) (hh : 0 < h) :
+    HasDerivAt (th1 a h) (Real.cos (th1 a h s0) / rho1 a h s0) s0 := hasDerivAt_th1 hh s0
+
+/-- the same derivative written `cos² th1 / h` -/
+theorem incidence_deriv' (a h s0 : ℝ) (hh : 0 < h) :
+    HasDerivAt (th1 a h) (Real.cos (th1 a h s0) ^ 2 / h) s0 := by
+  rw [← cos_div_rho1 hh]; exact hasDerivAt_th1 hh s0
+
+/-- **2. Snell's law differentiated** -/
+theorem snell_deriv (a h κ s0 : ℝ) (hh : 0 < h) (hk : |κ * Real.sin (th1 a h s0)| < 1) :
+    HasDerivAt (th2 a h κ)
+      (κ * Real.cos (th1 a h s0) / Real.cos (th2 a h κ s0) * (Real.cos (th1 a h s0) / rho1 a h s0)) s0 :=
+  hasDerivAt_th2 hh s0 hk
+
+/-- the same derivative in the form of 1.: `dth2/ds = cos th2 / (γ rho1)` — the transmitted rays
+turn as those of a point source at distance `γ rho1` -/
+theorem snell_deriv_centre (a h κ s0 : ℝ) (hh : 0 < h) (hκ : 0 < κ)
+    (hk : |κ * Real.sin (th1 a h s0)| < 1) :
+    let γ := Real.cos (th2 a h κ s0) ^ 2 / (κ * Real.cos (th1 a h s0) ^ 2)
+    HasDerivAt (th2 a h κ) (Real.cos (th2 a h κ s0) / (γ * rho1 a h s0)) s0 := by
+  intro γ
+  refine (hasDerivAt_th2 hh s0 hk).congr_deriv ?_
+  have h1 := (cos_th1_pos a h s0).ne'
+  have h2 := (cos_th2_pos hk).ne'
+  have h3 : rho1 a h s0 ≠ 0 := (rho1_pos hh s0).ne'
+  have h4 := hκ.ne'
+  simp only [γ]
+  field_simp
+
+/-- derivative of `F` at `s0` for an arbitrary candidate distance `ρ2`: `-(cos th2) + ρ2 · th2'(s0)` -/
+theorem F_deriv (a h κ s0 ρ2 : ℝ) (hh : 0 < h) (hk : |κ * Real.sin (th1 a h s0)| < 1) :
+    HasDerivAt (F a h κ s0 ρ2)
+      (-Real.cos (th2 a h κ s0) + ρ2 *
+        (κ * Real.cos (th1 a h s0) / Real.cos (th2 a h κ s0) * (Real.cos (th1 a h s0) / rho1 a h s0))) s0 :=
+  hasDerivAt_F hh s0 ρ2 hk
+
+/-- **3. Refraction law of the pencil**: with `γ = cos² th2 / (κ cos² th1)` the point at distance `γ rho1` behind
+`P(s0)` on the transmitted central ray is the centre of the transmitted pencil -/
+theorem refraction_law (a h κ s0 : ℝ) (hh : 0 < h) (hκ : 0 < κ) (hk : |κ * Real.sin (th1 a h s0)| < 1) :
+    let γ := Real.cos (th2 a h κ s0) ^ 2 / (κ * Real.cos (th1 a h s0) ^ 2)
+    HasDerivAt (F a h κ s0 (γ * rho1 a h s0)) 0 s0 := by
+  intro γ
+  refine (hasDerivAt_F hh s0 _ hk).congr_deriv ?_
+  have h1 := (cos_th1_pos a h s0).ne'
+  have h2 := (cos_th2_pos hk).ne'
+  have h3 : rho1 a h s0 ≠ 0 := (rho1_pos hh s0).ne'
+  have h4 := hκ.ne'
+  simp only [γ]
+  field_simp
+  ring
+
+/-- **3'. Uniqueness**: no other distance gives a centre -/
+theorem refraction_law_unique (a h κ s0 ρ2' : ℝ) (hh : 0 < h) (hκ : 0 < κ)
+    (hk : |κ * Real.sin (th1 a h s0)| < 1) (hF : HasDerivAt (F a h κ s0 ρ2') 0 s0) :
+    ρ2' = Real.cos (th2 a h κ s0) ^ 2 / (κ * Real.cos (th1 a h s0) ^ 2) * rho1 a h s0 := by
+  have h0 := (hasDerivAt_F hh s0 ρ2' hk).unique hF
+  have h1 := (cos_th1_pos a h s0).ne'
+  have h2 := (cos_th2_pos hk).ne'
+  have h3 : rho1 a h s0 ≠ 0 := (rho1_pos hh s0).ne'
+  have h4 := hκ.ne'
+  field_simp at h0 ⊢
+  linear_combination h0
+
+/-- 3. and 3'. together -/
+theorem refraction_law_iff (a h κ s0 ρ2' : ℝ) (hh : 0 < h) (hκ : 0 < κ)
+    (hk : |κ * Real.sin (th1 a h s0)| < 1) :
+    HasDerivAt (F a h κ s0 ρ2') 0 s0 ↔
+      ρ2' = Real.cos (th2 a h κ s0) ^ 2 / (κ * Real.cos (th1 a h s0) ^ 2) * rho1 a h s0 :=
+  ⟨refraction_law_unique a h κ s0 ρ2' hh hκ hk, fun e => e ▸ refraction_law a h κ s0 hh hκ hk⟩
+
+/-- **4. The pencil's `γ` is the code's factor** (`κ = vOut / vIn`) -/
+theorem refraction_law_gamma_is_code (a h vIn vOut s0 : ℝ) (hvi : 0 < vIn) (hvo : 0 < vOut)
+    (hk : |vOut / vIn * Real.sin (th1 a h s0)| < 1) :
+    gammas rT [vIn, vOut] [th1 a h s0] =
+      [Real.cos (th2 a h (vOut / vIn) s0) ^ 2 / (vOut / vIn * Real.cos (th1 a h s0) ^ 2)] := by
+  have snell : vIn * Real.sin (th2 a h (vOut / vIn) s0) = vOut * Real.sin (th1 a h s0) := by
+    rw [sin_th2 hk]; field_simp
+  rw [gamma_snell_real vIn vOut _ _ hvo.ne' snell]
+  have h1 := (cos_th1_pos a h s0).ne'
+  congr 1
+  field_simp
+
+/-- the sign of the angle is irrelevant: the same factor for `-th1` -/
+theorem refraction_law_gamma_is_code_neg (a h vIn vOut s0 : ℝ) (hvi : 0 < vIn) (hvo : 0 < vOut)
+    (hk : |vOut / vIn * Real.sin (th1 a h s0)| < 1) :
+    gammas rT [vIn, vOut] [-th1 a h s0] =
+      [Real.cos (th2 a h (vOut / vIn) s0) ^ 2 / (vOut / vIn * Real.cos (th1 a h s0) ^ 2)] := by
+  have snell : vIn * Real.sin (-th2 a h (vOut / vIn) s0) = vOut * Real.sin (-th1 a h s0) := by
+    rw [Real.sin_neg, Real.sin_neg, sin_th2 hk]; field_simp
+  rw [gamma_snell_real vIn vOut _ _ hvo.ne' snell, Real.cos_neg, Real.cos_neg]
+  have h1 := (cos_th1_pos a h s0).ne'
+  congr 1
+  field_simp
+
+/-- … and hence for the unsigned incidence angle `|th1|` that arim stores -/
+theorem refraction_law_gamma_is_code_abs (a h vIn vOut s0 : ℝ) (hvi : 0 < vIn) (hvo : 0 < vOut)
+    (hk : |vOut / vIn * Real.sin (th1 a h s0)| < 1) :
+    gammas rT [vIn, vOut] [|th1 a h s0|] =
+      [Real.cos (th2 a h (vOut / vIn) s0) ^ 2 / (vOut / vIn * Real.cos (th1 a h s0) ^ 2)] := by
+  rcases abs_choice (th1 a h s0) with e | e <;> rw [e]
+  · exact refraction_law_gamma_is_code a h vIn vOut s0 hvi hvo hk
+  · exact refraction_law_gamma_is_code_neg a h vIn vOut s0 hvi hvo hk
+
+/-- **5. Reflection** (`κ = vRefl / vInc`, `d(s) = (sin th2, +cos th2)`, `n(s) = (cos th2, -sin th2)`): the mirror image
+`y ↦ -y` of the transmission picture, so `Frefl = F` as functions of `s` -/
+theorem reflection_eq_transmission (a h κ s0 ρ2 : ℝ) : Frefl a h κ s0 ρ2 = F a h κ s0 ρ2 :=
+  Frefl_eq_F a h κ s0 ρ2
+
+theorem reflection_law (a h κ s0 : ℝ) (hh : 0 < h) (hκ : 0 < κ) (hk : |κ * Real.sin (th1 a h s0)| < 1) :
+    let γ := Real.cos (th2 a h κ s0) ^ 2 / (κ * Real.cos (th1 a h s0) ^ 2)
+    HasDerivAt (Frefl a h κ s0 (γ * rho1 a h s0)) 0 s0 := by
+  intro γ
+  rw [Frefl_eq_F]
+  exact refraction_law a h κ s0 hh hκ hk
+
+theorem reflection_law_unique (a h κ s0 ρ2' : ℝ) (hh : 0 < h) (hκ : 0 < κ)
+    (hk : |κ * Real.sin (th1 a h s0)| < 1) (hF : HasDerivAt (Frefl a h κ s0 ρ2') 0 s0) :
+    ρ2' = Real.cos (th2 a h κ s0) ^ 2 / (κ * Real.cos (th1 a h s0) ^ 2) * rho1 a h s0 := by
+  rw [Frefl_eq_F] at hF
+  exact refraction_law_unique a h κ s0 ρ2' hh hκ hk hF
+
+/-- specular reflection without mode conversion (`κ = 1`): `th2 = th1`, `γ = 1`, the image source is at the same
+distance -/
+theorem reflection_law_specular (a h s0 : ℝ) (hh : 0 < h) :
+    HasDerivAt (Frefl a h 1 s0 (rho1 a h s0)) 0 s0 := by
+  have hk : |1 * Real.sin (th1 a h s0)| < 1 := by
+    rw [one_mul, sin_th1 hh, abs_div, abs_of_pos (rho1_pos hh s0), div_lt_one (rho1_pos hh s0)]
+    apply Real.lt_sqrt_of_sq_lt
+    rw [sq_abs]; nlinarith [hh]
+  have hth : th2 a h 1 s0 = th1 a h s0 := by
+    unfold th2; rw [one_mul]; unfold th1
+    exact Real.arcsin_sin (Real.neg_pi_div_two_lt_arctan _).le (Real.arctan_lt_pi_div_two _).le
+  have := reflection_law a h 1 s0 hh one_pos hk
+  have h1 := (cos_th1_pos a h s0).ne'
+  simpa [hth, h1] using this
+
+/-- **6. Free propagation**: `V0 = P - ρ • d` is a fixed point; after a further length `r` along the central ray
+(`P' = P + r • d`, `|d| = 1`) its distance is `ρ + r` -/
+theorem leg_transport (Px Py dx dy ρ r : ℝ) (hd : dx ^ 2 + dy ^ 2 = 1) (hρ : 0 ≤ ρ + r) :
+    let V0x := Px - ρ * dx
+    let V0y := Py - ρ * dy
+    Real.sqrt (((Px + r * dx) - V0x) ^ 2 + ((Py + r * dy) - V0y) ^ 2) = ρ + r := by
+  intro V0x V0y
+  have : ((Px + r * dx) - V0x) ^ 2 + ((Py + r * dy) - V0y) ^ 2 = (ρ + r) ^ 2 := by
+    simp only [V0x, V0y]; linear_combination (ρ + r) ^ 2 * hd
+  rw [this, Real.sqrt_sq hρ]
+
+/-- signed form (no sign condition): the component of `P' - V0` along `d` is `ρ + r` and the one across is `0` -/
+theorem leg_transport_signed (Px Py dx dy ρ r : ℝ) (hd : dx ^ 2 + dy ^ 2 = 1) :
+    let V0x := Px - ρ * dx
+    let V0y := Py - ρ * dy
+    ((Px + r * dx) - V0x) * dx + ((Py + r * dy) - V0y) * dy = ρ + r ∧
+      ((Px + r * dx) - V0x) * dy - ((Py + r * dy) - V0y) * dx = 0 := by
+  intro V0x V0y
+  constructor
+  · simp only [V0x, V0y]; linear_combination (ρ + r) * hd
+  · simp only [V0x, V0y]; ring
+
+/-- **3. ∘ 6. = one step of `rho`/`transport`**: at the interface the centre of the pencil jumps to distance
+`γ rho1` (3.), along the next leg of length `r2` the distance grows by `r2` (6.); the result is `rho [rho1, r2] [γ]` -/
+theorem interface_then_leg (a h κ s0 r2 : ℝ) (hh : 0 < h) (hκ : 0 < κ)
+    (hk : |κ * Real.sin (th1 a h s0)| < 1) (hr : 0 ≤ r2) :
+    let γ := Real.cos (th2 a h κ s0) ^ 2 / (κ * Real.cos (th1 a h s0) ^ 2)
+    let ρ2 := γ * rho1 a h s0
+    let V0x := s0 - ρ2 * Real.sin (th2 a h κ s0)
+    let V0y := 0 - ρ2 * (-Real.cos (th2 a h κ s0))
+    HasDerivAt (F a h κ s0 ρ2) 0 s0 ∧
+      Real.sqrt (((s0 + r2 * Real.sin (th2 a h κ s0)) - V0x) ^ 2
+        + ((0 + r2 * (-Real.cos (th2 a h κ s0))) - V0y) ^ 2) = rho [rho1 a h s0, r2] [γ] := by
+  intro γ ρ2 V0x V0y
+  refine ⟨refraction_law a h κ s0 hh hκ hk, ?_⟩
+  have hγ : 0 < γ := gam_pos hκ hk
+  have hρ : 0 ≤ ρ2 + r2 := by
+    have := rho1_pos (a := a) hh s0
+    simp only [ρ2]; positivity
+  have hd : Real.sin (th2 a h κ s0) ^ 2 + (-Real.cos (th2 a h κ s0)) ^ 2 = 1 := by
+    rw [neg_sq]; exact Real.sin_sq_add_cos_sq _
+  have := leg_transport s0 0 (Real.sin (th2 a h κ s0)) (-Real.cos (th2 a h κ s0)) ρ2 r2 hd hρ
+  have e : rho [rho1 a h s0, r2] [γ] = ρ2 + r2 := rfl
+  rw [e]; exact this
+
+/-- **7. One interface, two legs**: the virtual distance of the code is (distance of the target from the centre of the
+transmitted pencil) / `γ` -/
+theorem tube_two_legs (a h vIn vOut s0 r2 : ℝ) (hvi : 0 < vIn) (hvo : 0 < vOut)
+    (hk : |vOut / vIn * Real.sin (th1 a h s0)| < 1) :
+    let γ := Real.cos (th2 a h (vOut / vIn) s0) ^ 2 / (vOut / vIn * Real.cos (th1 a h s0) ^ 2)
+    virtualDistance 1 [rho1 a h s0, r2] (gammas rT [vIn, vOut] [th1 a h s0]) =
+      (γ * rho1 a h s0 + r2) / γ := by
+  intro γ
+  have hγ : γ ≠ 0 := (gam_pos (div_pos hvo hvi) hk).ne'
+  rw [refraction_law_gamma_is_code a h vIn vOut s0 hvi hvo hk,
+    beamspread_eq_recursion _ _ rfl (by simp only [List.mem_singleton, forall_eq]; exact hγ)]
+  simp [rho, transport, γ]
+
+/-- the same for the returned amplitude -/
+theorem tube_two_legs_beamspread (a h vIn vOut s0 r2 : ℝ) (hvi : 0 < vIn) (hvo : 0 < vOut)
+    (hk : |vOut / vIn * Real.sin (th1 a h s0)| < 1) :
+    let γ := Real.cos (th2 a h (vOut / vIn) s0) ^ 2 / (vOut / vIn * Real.cos (th1 a h s0) ^ 2)
+    beamspread rT [rho1 a h s0, r2] [vIn, vOut] [th1 a h s0] =
+      1 / Real.sqrt ((γ * rho1 a h s0 + r2) / γ) := by
+  intro γ
+  rw [← tube_two_legs a h vIn vOut s0 r2 hvi hvo hk]; rfl
+
+/-- non-vacuity: `a = 0`, `h = 1`, `s0 = 1/2`, `κ = 2/1`: `sin th1 = 1/√5`, `κ sin th1 = 2/√5 < 1` -/
+theorem example_below_critical : |(2 : ℝ) / 1 * Real.sin (th1 0 1 (1 / 2))| < 1 := by
+  have hr : (1 : ℝ) < rho1 0 1 (1 / 2) := by
+    unfold rho1; apply Real.lt_sqrt_of_sq_lt; norm_num
+  rw [sin_th1 one_pos, abs_lt]
+  constructor
+  · have : (0 : ℝ) < 2 / 1 * ((1 / 2 - 0) / rho1 0 1 (1 / 2)) := by positivity
+    linarith
+  · rw [div_one, sub_zero, ← mul_div_assoc, div_lt_one (by linarith)]
+    linarith
+
+example : HasDerivAt (F 0 1 (2 / 1) (1 / 2)
+    (Real.cos (th2 0 1 (2 / 1) (1 / 2)) ^ 2 / (2 / 1 * Real.cos (th1 0 1 (1 / 2)) ^ 2) * rho1 0 1 (1 / 2))) 0 (1 / 2) :=
+  refraction_law 0 1 (2 / 1) (1 / 2) one_pos (by norm_num) example_below_critical
+
+example (r2 : ℝ) :
+    virtualDistance 1 [rho1 0 1 (1 / 2), r2] (gammas rT [1, 2] [th1 0 1 (1 / 2)]) =
+      (Real.cos (th2 0 1 (2 / 1) (1 / 2)) ^ 2 / (2 / 1 * Real.cos (th1 0 1 (1 / 2)) ^ 2) * rho1 0 1 (1 / 2) + r2) /
+        (Real.cos (th2 0 1 (2 / 1) (1 / 2)) ^ 2 / (2 / 1 * Real.cos (th1 0 1 (1 / 2)) ^ 2)) :=
+  tube_two_legs 0 1 1 2 (1 / 2) r2 one_pos two_pos example_below_critical
+
+end pencil
 
 end Arim.C06
